@@ -490,21 +490,48 @@ func c19Admit(c *Ctx, table map[string]c19Entry, hits []c19Hit, what string) {
 	}
 }
 
-// holdsAtOrOnAllEdges: pred holds on the facts at b, or (one level of disjunction) on the facts of
-// every CFG edge entering b.
+// holdsAtOrOnAllEdges: pred holds on the facts at b, or (bounded disjunction) on every way b is
+// entered: the facts of each incoming CFG edge satisfy pred, or the edge's source block does in the
+// same sense. Edges that the facts already known downstream exclude are not followed
+// (pfFeasibleEdges: a Phi of the block is tested later and the edge's incoming value contradicts the
+// test — `err := phi(nil, fmt.Errorf(…), nil); if err != nil { return }` leaves the first and third
+// edge). That is the shape a guard has after the normaliser merged an extracted helper with several
+// returns into its caller: the helper's returns meet in one block and only the test of the merged
+// result separates them again.
 func (p *Program) holdsAtOrOnAllEdges(b *ssa.BasicBlock, pred func([]Fact) bool) bool {
 	if pred(p.FactsAt(b)) {
 		return true
 	}
-	if len(b.Preds) < 2 {
-		return false
-	}
-	for _, pr := range b.Preds {
-		if !pred(p.FactsOnEdge(pr, b)) {
+	visiting := map[*ssa.BasicBlock]bool{b: true}
+	var back func(b *ssa.BasicBlock, known []Fact, depth int) bool
+	back = func(b *ssa.BasicBlock, known []Fact, depth int) bool {
+		if len(b.Preds) == 0 || depth <= 0 {
 			return false
 		}
+		feasible := p.pfFeasibleEdges(b, known)
+		n := 0
+		for i, pr := range b.Preds {
+			if i < len(feasible) && !feasible[i] {
+				continue
+			}
+			n++
+			ef := p.FactsOnEdge(pr, b)
+			if pred(ef) {
+				continue
+			}
+			if visiting[pr] {
+				return false
+			}
+			visiting[pr] = true
+			ok := pred(p.FactsAt(pr)) || back(pr, append(append([]Fact{}, known...), ef...), depth-1)
+			visiting[pr] = false
+			if !ok {
+				return false
+			}
+		}
+		return n > 0
 	}
-	return true
+	return back(b, p.FactsAt(b), 4)
 }
 
 // ---------------------------------------------------------------------------------------------
